@@ -21,6 +21,7 @@ cdef class RecordManager:
     cdef public object zc
     cdef public DNSCache cache
     cdef public cython.set listeners
+    cdef public cython.uint _dispatching
 
     cpdef void async_updates(self, object now, object records)
 
